@@ -59,16 +59,18 @@ Do(e) == LET c == Contract(e)
             /\ UNCHANGED <<cfg, now>>
 Ev(op, k, v, tm, ver, d) == [op |-> op, a |-> [k |-> k, v |-> v, tm |-> tm, ver |-> ver, d |-> d], now |-> now]
 
-Next ==
-    \/ now < MaxNow /\ now' = now + 1 /\ UNCHANGED <<D, S, cfg, ok>>
-    \/ \E k \in DKeys, ver \in {0, 1, 2} :
-          \/ \E v \in DVals, tm \in Tms, op \in {"set", "add", "get_or_set"} : Do(Ev(op, k, v, tm, ver, 0))
-          \/ \E tm \in Tms : Do(Ev("touch", k, 0, tm, ver, 0))
-          \/ \E op \in {"get", "delete", "has_key", "pop"} : Do(Ev(op, k, 0, <<"d">>, ver, 0))
-          \/ \E d \in {1, -1} : Do(Ev("incr", k, 0, <<"d">>, ver, d))
-          \/ (EffVer(ver) < MaxVer /\ Do(Ev("incr_version", k, 0, <<"d">>, ver, 1)))
-          \/ (EffVer(ver) > 1 /\ Do(Ev("incr_version", k, 0, <<"d">>, ver, -1)))
-    \/ Do(Ev("clear", <<>>, 0, <<"d">>, 0, 0))
+\* every call of the model, as an event record (the same records drive the real backend in DjangoSeqPlan)
+Events ==
+    UNION {
+      {Ev(op, k, v, tm, ver, 0) : op \in {"set", "add", "get_or_set"}, k \in DKeys, v \in DVals, tm \in Tms, ver \in {0, 1, 2}},
+      {Ev("touch", k, 0, tm, ver, 0) : k \in DKeys, tm \in Tms, ver \in {0, 1, 2}},
+      {Ev(op, k, 0, <<"d">>, ver, 0) : op \in {"get", "delete", "has_key", "pop"}, k \in DKeys, ver \in {0, 1, 2}},
+      {Ev("incr", k, 0, <<"d">>, ver, d) : k \in DKeys, ver \in {0, 1, 2}, d \in {1, -1}},
+      {Ev("incr_version", k, 0, <<"d">>, ver, d) : k \in DKeys, ver \in {0, 1, 2}, d \in {1, -1}},
+      {Ev("clear", <<>>, 0, <<"d">>, 0, 0)} }
+Enabled(e) == e.op = "incr_version" => (IF e.a.d = 1 THEN EffVer(e.a.ver) < MaxVer ELSE EffVer(e.a.ver) > 1)
+TickStep == now < MaxNow /\ now' = now + 1 /\ UNCHANGED <<D, S, cfg, ok>>
+Next == TickStep \/ \E e \in Events : Enabled(e) /\ Do(e)
 
 Spec == Init /\ [][Next]_djvars
 
